@@ -14,6 +14,13 @@ addressed by its non-negative and by its negative index, through every public ca
 The statement holds 'for every input': every family of cases is also run in every autograd state a caller can
 be in (AGS below: leaf / non-leaf inputs that require grad with grad mode on, torch.no_grad(), torch.inference_mode();
 float64 instead of int64 items), every length L in each of them, judged by the same oracle and tied to the same model.
+
+'For any associative operation': the operation of cumops is a callback of the caller, who owns the tensors it is handed and
+the tensor it returns.  Block (5) runs six associative operations, each written in every style such a callback can have
+(new tensor; accumulating in place into either operand and returning it; returning an operand / a view of it; overwriting the
+operands after use; one recycled result buffer; the product computed through the cumulative-product API itself; an unrelated
+scan run inside the callback), and two scans whose passes alternate (two threads in lockstep); the LieTensor family has
+cumops callbacks that re-enter cumprod / cummul / cumops / the in-place methods.  Judged by exact sequential folds.
 """
 import itertools
 from ..common import *
@@ -23,7 +30,11 @@ RULE = ('plain tensors: every L in the tier range (exhaustive for the index sche
         'LieTensor cases: Q8 x integer translations x power-of-two scales on batch shapes of rank 1..3, every batch '
         'dim by its non-negative and negative index, distinct (type, batch shape, dim, order, call, items); '
         'each case is a history: call, then in-place scan of / writes to the result, then the call repeated on the modified input; '
-        'every family in every autograd state (no grad / leaf / non-leaf requiring grad / no_grad / inference_mode), every L in each state')
+        'every family in every autograd state (no grad / leaf / non-leaf requiring grad / no_grad / inference_mode), every L in each state; '
+        'callback cases: six associative operations (affine maps, rectangular / left-zero / right-zero band, 2x2 integer matrices, element-wise '
+        'product) x ten ways of writing the callback (new tensor / in place into either operand / operand views / operands overwritten / recycled '
+        'buffer / product through a nested cumops, cumops_, cumprod, cummul / unrelated scan inside) x cumops, cumops_ x both orders, distinct '
+        '(operation, style, variant, order, shape, dim, state, items); two scans alternating pass by pass in two threads')
 
 
 def seg_ops(torch, order='right'):
@@ -157,6 +168,8 @@ KEY_ALIAS = 'cum-result-aliases-input'
 KEY_MUT = 'cum-mutates-input'
 KEY_INPL = 'cum-inplace-not-overwritten'
 KEY_HIST = 'cum-depends-on-history'
+KEY_CB = 'cumops-depends-on-callback-style'
+KEY_REENT = 'cumops-not-reentrant'
 
 
 def plain_exec(pp, torch, c, history=True):
@@ -419,13 +432,27 @@ def frows(t, w):
     return [[Fraction(v) for v in row] for row in t.reshape(-1, w).tolist()]
 
 
-def lie_call(pp, x, fn, form, dim, left, mulop='@'):
-    """the public call forms of the six functions"""
+LIE_CBS = ['plain', 'nested-lib', 'nested-cumops', 'nested-method_', 'nested-other']
+
+
+def lie_call(pp, x, fn, form, dim, left, mulop='@', cb='plain'):
+    """the public call forms of the six functions; cb: how the callback of cumops computes its product (LIE_CBS: directly,
+    or re-entering the cumulative-product API: as the last item of a 2-term scan / after an unrelated scan)"""
     if fn.startswith('cumops'):
-        if mulop == '@':
-            ops = (lambda a, b: b @ a) if left else (lambda a, b: a @ b)
+        import torch
+        if cb == 'nested-lib':
+            mul = lambda a, b: getattr(pp, 'cumprod' if mulop == '@' else 'cummul')(torch.stack([a, b]), 0, left=False)[1]
+        elif cb == 'nested-cumops':
+            mul = lambda a, b: pp.cumops(torch.stack([b, a]), 0, (lambda p, q: q @ p) if mulop == '@' else (lambda p, q: q * p))[1]
+        elif cb == 'nested-method_':
+            mul = lambda a, b: getattr(torch.stack([b, a], -2), 'cumprod_' if mulop == '@' else 'cummul_')(-2)[..., 1, :]
+        elif cb == 'nested-other':
+            def mul(a, b):
+                pp.cumprod(pp.LieTensor(a.tensor().detach().flatten(0, -2).flip(0).repeat(3, 1)[:7], ltype=a.ltype), 0)
+                return a @ b if mulop == '@' else a * b
         else:
-            ops = (lambda a, b: b * a) if left else (lambda a, b: a * b)
+            mul = (lambda a, b: a @ b) if mulop == '@' else (lambda a, b: a * b)
+        ops = (lambda a, b: mul(b, a)) if left else mul
         if form == 'method':
             return getattr(x, fn)(dim=dim, ops=ops)
         if form in ('method-positional', 'method-default'):
@@ -464,12 +491,14 @@ def lie_exec(pp, torch, c):
     res = dict(calls=[], fail=None)
     try:
         with ag_context(torch, c.get('ag', 'off')):
-            return lie_exec_(pp, torch, c, res)
+            lie_exec_(pp, torch, c, res)
     except Exception as e:
         res['fail'] = res['fail'] or (KEY_HIST, 'a step of the history around %s%s.%s(dim=%s)%s raises %s: %s'
                                       % (c['ltype'], c.get('bshape'), c['fn'], c.get('dim', 0), ag_text(c.get('ag', 'off')),
                                          type(e).__name__, str(e)[:200]))
-        return res
+    if res['fail'] and c.get('cb', 'plain') != 'plain' and res['fail'][0] in (KEY_FOLD, KEY_HIST):
+        res['fail'] = (KEY_REENT, res['fail'][1])
+    return res
 
 
 def lie_exec_(pp, torch, c, res):
@@ -483,6 +512,7 @@ def lie_exec_(pp, torch, c, res):
     w = WIDTH[lt]
     layout = c.get('layout', 'C')
     mulop = c.get('mulop', '@')
+    cb = c.get('cb', 'plain')
     inplace = fn.endswith('_')
     ag = c.get('ag', 'off')
     lay = LAYOUTS[layout] + ag_text(ag)
@@ -499,6 +529,8 @@ def lie_exec_(pp, torch, c, res):
     x0 = raw(x).clone()
     buf0 = buf.clone()
     call = '%s%s.%s [%s form](dim=%d, left=%s)%s' % (lt, list(bshape), fn, form, dim, left, ag_text(ag))
+    if cb != 'plain':
+        call += ' [ops computes its product re-entering the API: %s]' % cb
 
     def judged(y, rows_in, kk, lf, what):
         """records the call for the tie and compares with the ordered products"""
@@ -512,7 +544,7 @@ def lie_exec_(pp, torch, c, res):
         return (KEY_FOLD, '%s is not the ordered product along batch dimension %d: %s' % (what, kk, d)) if d else None
 
     try:
-        y = lie_call(pp, x, fn, form, dim, left, mulop)
+        y = lie_call(pp, x, fn, form, dim, left, mulop, cb)
     except Exception as e:
         res['calls'].append((k, left, rows0, None))
         res['fail'] = (KEY_FOLD, '%s raises %s: %s' % (call, type(e).__name__, str(e)[:200]))
@@ -572,7 +604,7 @@ def lie_exec_(pp, torch, c, res):
     rows3 = frows(x0.flip(k), w)
     what = '%s; x.copy_(x.flip(%d)); the same call again' % (call, k)
     try:
-        y3 = lie_call(pp, x, fn, form, dim, left, mulop)
+        y3 = lie_call(pp, x, fn, form, dim, left, mulop, cb)
     except Exception as e:
         res['fail'] = (KEY_HIST, '%s raises %s: %s' % (what, type(e).__name__, str(e)[:200]))
         return res
@@ -622,7 +654,17 @@ def lie_cases(ctx, pp, torch, direct):
         if ag == 'leaf' and fn.endswith('_'):
             continue
         plan.append((LTS[n % 4], LIE_FORMS[n % len(LIE_FORMS)], fn, left, ([3, 4, 5, 7, 8, 9, 12, 16, 17][n % 9],), 0 if n % 3 else -2, 'C', ag))
-    for (lt, form, fn, left, bsh, dim, layout, ag) in plan:
+    # (e) cumops / cumops_ whose callback re-enters the cumulative-product API (2-term scans, an unrelated scan), every state
+    for n, (cb, fn, left) in enumerate(itertools.product(LIE_CBS[1:], ['cumops', 'cumops_'], [True, False])):
+        for rep in range(ctx.scale(2, 6)):
+            m = 2 * n + rep
+            bsh = [(3,), (4,), (5,), (2, 3), (6,), (9,), (3, 2, 2), (7,)][m % 8]
+            k = (m // 3) % len(bsh)
+            ags = AG_IN if fn.endswith('_') else AG_OUT
+            plan.append((LTS[(m + m // 4) % 4], ['function', 'method', 'ltype', 'function-kw'][m % 4], fn, left, bsh, k if m % 2 else k - len(bsh) - 1,
+                         'CCSP'[m % 4], ags[(m + m // 5) % len(ags)], cb))
+    for p in plan:
+        (lt, form, fn, left, bsh, dim, layout, ag), cb = p[:8], (p[8] if len(p) > 8 else 'plain')
         r = len(bsh)
         k = dim if dim >= 0 else dim + r + 1
         if form in ('default', 'method-default') and not fn.startswith('cumops'):
@@ -634,6 +676,9 @@ def lie_cases(ctx, pp, torch, direct):
             then = None      # a scan of the scan multiplies up to L(L+1)/2 scales: the translations leave the exact range of float64
         c = dict(kind='lie', ltype=lt, L=bsh[k], left=left, fn=fn, form=form, items=items, bshape=list(bsh), dim=dim,
                  layout=layout, mulop=rng.choice('@*'), then=then, ag=ag)
+        if cb != 'plain':
+            c['cb'] = cb
+            ctx.count('lie-callback-' + cb)
         ex = lie_exec(pp, torch, c)
         if ex['fail']:
             direct.append((ex['fail'], c))
@@ -783,6 +828,8 @@ def run(ctx):
         files.append(('lie', lie_body))
     # ---------------------------------------------------------------- (4) plain tensors of matrices through cumprod / cummul
     mat_cases(ctx, pp, torch, direct)
+    # ---------------------------------------------------------------- (5) the operation as a callback: implementation styles, re-entrancy
+    cb_cases(ctx, pp, torch, direct)
     # ---------------------------------------------------------------- run Coq, collect
     res = run_case_files('C12', files, timeout=1200)
     for name, (rc, out) in sorted(res.items()):
@@ -913,6 +960,342 @@ def mat_exec_(pp, torch, c):
     return None
 
 
+# ------------------------------------------------------------------------------------------------
+# (5) the statement holds 'for any associative operation': the operation is a callback of the caller, and the
+# callback owns the tensors it is handed and the tensor it returns.  The same monoids are implemented in every style a
+# callback can be written in (fresh result / accumulating in place into either operand and returning it / returning an
+# operand or a view of it / overwriting the operands after use / returning one recycled buffer / computing the product
+# through the cumulative-product API itself / running an unrelated scan first), and two scans are interleaved pass by pass.
+CB_MONOIDS = ['affine', 'band', 'lzero', 'rzero', 'mat', 'had']
+CB_STYLES = ['fresh', 'into-first', 'into-second', 'operand-view', 'scribble', 'recycled',
+             'nested-cumops', 'nested-cumops_', 'nested-lib', 'nested-other']
+CB_WIDTH = {'affine': 2, 'band': 2, 'lzero': 2, 'rzero': 2, 'mat': 4, 'had': 3}
+CB_TEXT = {'affine': 'composition of the integer affine maps t -> m t + c, items (m, c)',
+           'band': 'the rectangular band (p1, q1) o (p2, q2) = (p1, q2)',
+           'lzero': 'the left-zero band a o b = a', 'rzero': 'the right-zero band a o b = b',
+           'mat': 'products of 2x2 integer matrices (free monoid on [[1,1],[0,1]], [[1,0],[1,1]]), items are the 4 entries',
+           'had': 'the element-wise product of integer triples'}
+CB_STYLE_TEXT = {'fresh': 'returns a new tensor', 'into-first': 'accumulates in place into the first factor and returns it',
+                 'into-second': 'accumulates in place into the second factor and returns it',
+                 'operand-view': 'returns (a view of) an operand when the product is that operand, else accumulates into a view of it',
+                 'scribble': 'returns a new tensor and overwrites both operands afterwards',
+                 'recycled': 'returns one buffer owned by the callback, overwritten by every call',
+                 'nested-cumops': 'computes the product as the last item of a 2-term pp.cumops',
+                 'nested-cumops_': 'computes the product as the last item of a 2-term pp.cumops_ (left order)',
+                 'nested-lib': 'computes the product as the last item of a 2-term pp.cumprod / pp.cummul / pp.cumops',
+                 'nested-other': 'runs an unrelated scan of another length before multiplying'}
+
+
+def cb_pyop(monoid):
+    """a o b on tuples of Python integers, from the definition of the monoid"""
+    if monoid == 'affine':
+        return lambda a, b: (a[0] * b[0], a[0] * b[1] + a[1])
+    if monoid == 'band':
+        return lambda a, b: (a[0], b[1])
+    if monoid == 'lzero':
+        return lambda a, b: a
+    if monoid == 'rzero':
+        return lambda a, b: b
+    if monoid == 'mat':
+        return lambda a, b: (a[0] * b[0] + a[1] * b[2], a[0] * b[1] + a[1] * b[3], a[2] * b[0] + a[3] * b[2], a[2] * b[1] + a[3] * b[3])
+    return lambda a, b: tuple(u * v for u, v in zip(a, b))
+
+
+def cb_rows(rng, monoid, n):
+    if monoid == 'affine':
+        return [(rng.choice([1, -1, -1, 2]), rng.randint(-3, 3)) for _ in range(n)]
+    if monoid == 'mat':
+        return [rng.choice([(1, 1, 0, 1), (1, 0, 1, 1)]) for _ in range(n)]
+    if monoid == 'had':
+        return [tuple(rng.choice([1, -1, -1, 2]) for _ in range(3)) for _ in range(n)]
+    return [(10 * f + 1, 10 * f + 2) for f in range(n)]            # bands: every coordinate identifies its item
+
+
+def cb_fresh(torch, monoid):
+    """a o b as a new tensor"""
+    if monoid == 'affine':
+        return lambda a, b: torch.stack([a[..., 0] * b[..., 0], a[..., 0] * b[..., 1] + a[..., 1]], -1)
+    if monoid == 'band':
+        return lambda a, b: torch.stack([a[..., 0], b[..., 1]], -1)
+    if monoid == 'lzero':
+        return lambda a, b: a.clone()
+    if monoid == 'rzero':
+        return lambda a, b: b.clone()
+    if monoid == 'mat':
+        return lambda a, b: (a.unflatten(-1, (2, 2)) @ b.unflatten(-1, (2, 2))).flatten(-2)
+    return lambda a, b: a * b
+
+
+def cb_into(torch, monoid, which, view=False):
+    """a o b accumulated in place into the first (which=0) or second factor, which is returned (view: through a view)"""
+    def first(a, b):
+        t = a[...] if view else a
+        if monoid == 'affine':
+            t[..., 1].addcmul_(t[..., 0], b[..., 1])
+            t[..., 0].mul_(b[..., 0])
+        elif monoid == 'band':
+            t[..., 1] = b[..., 1]
+        elif monoid == 'rzero':
+            t.copy_(b)
+        elif monoid == 'mat':
+            t.copy_(cb_fresh(torch, 'mat')(a, b))
+        elif monoid == 'had':
+            t.mul_(b)
+        return t
+
+    def second(a, b):
+        t = b[...] if view else b
+        if monoid == 'affine':
+            t[..., 1].mul_(a[..., 0]).add_(a[..., 1])
+            t[..., 0].mul_(a[..., 0])
+        elif monoid == 'band':
+            t[..., 0] = a[..., 0]
+        elif monoid == 'lzero':
+            t.copy_(a)
+        elif monoid == 'mat':
+            t.copy_(cb_fresh(torch, 'mat')(a, b))
+        elif monoid == 'had':
+            t.mul_(a)
+        return t
+    return second if which else first
+
+
+def cb_inner_scan(pp, torch, st, Lo, like):
+    """an unrelated scan (segment monoid) of length Lo, judged by the fold; failures are left in st"""
+    x, base = seg_tensor(torch, (Lo,), 0)
+    if like.is_floating_point():
+        x = x.to(like.dtype)
+    y = (pp.cumops_ if st['n'] % 2 else pp.cumops)(x, 0, seg_ops(torch, 'right'))
+    bad = [(b, d[:3]) for b, d in deviations(y.detach(), base, 0) if d]
+    if bad and not st.get('inner'):
+        st['inner'] = 'the scan of the segment items [100000+i, 100000+i], i < %d, run inside the callback differs from the fold: %s' % (Lo, bad[:1])
+
+
+def cb_make(pp, torch, monoid, style, st, inner_L=3):
+    """mop(a, b) = a o b as a callback written in the given style; st: the callback's own state"""
+    fresh = cb_fresh(torch, monoid)
+    if style == 'fresh':
+        mop = fresh
+    elif style == 'into-first':
+        mop = cb_into(torch, monoid, 0)
+    elif style == 'into-second':
+        mop = cb_into(torch, monoid, 1)
+    elif style == 'operand-view':
+        mop = cb_into(torch, monoid, 1 if monoid == 'rzero' else 0, view=True)
+    elif style == 'scribble':
+        def mop(a, b):
+            r = fresh(a, b)
+            a.fill_(-99)
+            b.fill_(-77)
+            return r
+    elif style == 'recycled':
+        def mop(a, b):
+            r = fresh(a, b)
+            if st.get('buf') is None or st['buf'].dtype != r.dtype or r.requires_grad:
+                st['buf'] = r if r.requires_grad else r.clone()
+                return st['buf']
+            st['buf'].fill_(-55)                        # whatever was returned before belongs to the callback
+            st['buf'].resize_(r.shape).copy_(r)
+            return st['buf']
+    elif style == 'nested-cumops':
+        mop = lambda a, b: pp.cumops(torch.stack([a, b], 0), 0, fresh)[1]
+    elif style == 'nested-cumops_':
+        mop = lambda a, b: pp.cumops_(torch.stack([b, a], -2), -2, lambda p, q: fresh(q, p)).select(-2, 1)
+    elif style == 'nested-lib':
+        if monoid == 'mat':
+            mop = lambda a, b: pp.cumprod(torch.stack([a, b], 0).unflatten(-1, (2, 2)), 0, left=False)[1].flatten(-2)
+        elif monoid == 'had':
+            mop = lambda a, b: pp.cummul(torch.stack([b, a], 0), 0)[1]
+        else:
+            mop = lambda a, b: pp.cumops(torch.stack([b, a], 0), 0, lambda p, q: fresh(q, p))[1]
+    else:
+        def mop(a, b):
+            cb_inner_scan(pp, torch, st, inner_L, a)
+            return fresh(a, b)
+
+    def counted(a, b):
+        st['n'] = st.get('n', 0) + 1
+        return mop(a, b)
+    return counted
+
+
+def cb_fold(rows, bsh, k, pyop, left):
+    import math
+    inner = int(math.prod(bsh[k + 1:]))
+    out = list(rows)
+    for f in range(len(rows)):
+        if (f // inner) % bsh[k] > 0:
+            out[f] = pyop(rows[f], out[f - inner]) if left else pyop(out[f - inner], rows[f])
+    return out
+
+
+def cb_diff(y, exp, bsh, w):
+    """first position where the tensor y differs from the expected rows (or a shape complaint)"""
+    import numpy as np
+    if tuple(y.shape) != tuple(bsh) + (w,):
+        return 'the result has shape %s, expected %s' % (list(y.shape), list(bsh) + [w])
+    got = [tuple(int(v) for v in row) for row in y.reshape(-1, w).tolist()]
+    for f, (g, e) in enumerate(zip(got, exp)):
+        if g != tuple(e):
+            return 'position %s holds %s, the ordered product is %s' % (list(map(int, np.unravel_index(f, bsh))), list(g), list(e))
+    return None
+
+
+def cb_exec(pp, torch, c):
+    try:
+        with ag_context(torch, c.get('ag', 'off')):
+            return cb_exec_(pp, torch, c)
+    except Exception as e:
+        return (KEY_REENT if c['style'].startswith('nested') else KEY_CB,
+                'a step of the history around %s(x, %d, ops)%s on a tensor of shape %s with items %s ..., ops(a, b) = %s of %s, written so that it %s, raises %s: %s'
+                % (c['variant'], c['dim'], ag_text(c.get('ag', 'off')), c['shape'] + [CB_WIDTH[c['monoid']]],
+                   [list(v) for v in cb_rows(__import__('random').Random(c['iseed']), c['monoid'], 4)], 'b o a' if c['order'] == 'left' else 'a o b',
+                   CB_TEXT[c['monoid']], CB_STYLE_TEXT[c['style']], type(e).__name__, str(e)[:200]))
+
+
+def cb_exec_(pp, torch, c):
+    import random
+    monoid, style, variant, order = c['monoid'], c['style'], c['variant'], c['order']
+    bsh, dim, ag, layout = tuple(c['shape']), c['dim'], c.get('ag', 'off'), c.get('layout', 'C')
+    r, w = len(bsh), CB_WIDTH[monoid]
+    k = dim if dim >= 0 else dim + r + 1
+    left = order == 'left'
+    key = KEY_REENT if style.startswith('nested') else KEY_CB
+    n = 1
+    for s in bsh:
+        n *= s
+    rows = cb_rows(random.Random(c['iseed']), monoid, n)
+    pyop = cb_pyop(monoid)
+    exp = cb_fold(rows, bsh, k, pyop, left)
+    t = torch.tensor(rows, dtype=torch.int64 if ag == 'off' else torch.float64).reshape(bsh + (w,))
+    _, buf, vf = relayout(torch, t, layout)
+    buf = ag_buffer(torch, buf, ag)
+    xg = vf(buf)
+    x, buf = xg.detach(), buf.detach()
+    x0, buf0 = x.clone(), buf.clone()
+    st = {}
+    mop = cb_make(pp, torch, monoid, style, st, c.get('inner_L', 3))
+    ops = (lambda p, q: mop(q, p)) if left else mop
+    fn = getattr(pp, variant)
+    call = ('%s(x, %d, ops)%s on the %s tensor x of shape %s with items %s%s along dim %d, ops(a, b) = %s of %s, written so that it %s'
+            % (variant, dim, ag_text(ag), LAYOUTS[layout], list(bsh) + [w], [list(v) for v in rows[:4]], ', ...' if n > 4 else '', k,
+               'b o a' if left else 'a o b', CB_TEXT[monoid], CB_STYLE_TEXT[style]))
+    y = fn(xg, dim, ops)
+    if not torch.is_tensor(y):
+        return (key, '%s returns a %s' % (call, type(y).__name__))
+    y = y.detach()
+    d = cb_diff(y, exp, bsh, w)
+    if d:
+        return (key, '%s: %s' % (call, d))
+    if st.get('inner'):
+        return (KEY_REENT, '%s: %s' % (call, st['inner']))
+    if variant.endswith('_'):
+        if not torch.equal(x, y):
+            return (KEY_INPL, '%s returned the fold but did not overwrite x with it' % call)
+        if not torch.equal(outside(buf, vf), outside(buf0, vf)):
+            return (KEY_MUT, '%s wrote outside the view x' % call)
+        return None
+    if not torch.equal(x, x0) or not torch.equal(buf, buf0):
+        return (KEY_MUT, '%s changed its input' % call)
+    # the same call again with the same callback object (its buffers now hold the previous products) and with a
+    # fresh plain one: the same result, the first result untouched
+    ysave = y.clone()
+    y2 = fn(xg, dim, ops).detach()
+    y3 = fn(xg, dim, (lambda p, q: cb_fresh(torch, monoid)(q, p)) if left else cb_fresh(torch, monoid)).detach()
+    if not torch.equal(y, ysave):
+        return (KEY_ALIAS, 'y = %s; the same call again changed y: the result shares memory with a tensor of the callback' % call)
+    d = cb_diff(y2, exp, bsh, w) or cb_diff(y3, exp, bsh, w)
+    if d:
+        return (KEY_HIST, '%s; the same call again: %s' % (call, d))
+    if not torch.equal(x, x0) or not torch.equal(buf, buf0):
+        return (KEY_MUT, '%s, called three times, changed its input' % call)
+    y.fill_(-5)
+    if not torch.equal(x, x0):
+        return (KEY_ALIAS, 'y = %s; y.fill_(-5) changed x: the result shares memory with the input' % call)
+    return None
+
+
+def cb_threads_exec(pp, torch, c):
+    """two scans run by two threads in lockstep: every callback of scan A returns only after the matching callback of scan B
+    (shifted by c['offset'] passes) has been entered, so that the passes of the two scans alternate; both are judged"""
+    import random, threading
+    LA, LB, off, monoid, ag = c['LA'], c['LB'], c['offset'], c['monoid'], c.get('ag', 'off')
+    w = CB_WIDTH[monoid]
+    pyop = cb_pyop(monoid)
+    bar = threading.Barrier(2)
+    out = {}
+
+    def work(name, L, skip, seed, left):
+        try:
+            with ag_context(torch, ag):
+                rows = cb_rows(random.Random(seed), monoid, L)
+                t = ag_buffer(torch, torch.tensor(rows, dtype=torch.int64 if ag == 'off' else torch.float64), ag)
+                fresh = cb_fresh(torch, monoid)
+                st = dict(n=0)
+
+                def ops(p, q):
+                    st['n'] += 1
+                    if st['n'] > skip:
+                        try:
+                            bar.wait(timeout=20)
+                        except threading.BrokenBarrierError:
+                            pass
+                    return fresh(q, p) if left else fresh(p, q)
+                y = (pp.cumops_ if name == 'B' and ag != 'leaf' else pp.cumops)(t, 0, ops).detach()
+                d = cb_diff(y, cb_fold(rows, (L,), 0, pyop, left), (L,), w)
+                out[name] = d and ('scan %s (L = %d, items %s%s, %s order): %s' % (name, L, [list(v) for v in rows[:4]], ', ...' if L > 4 else '',
+                                                                                    'left' if left else 'right', d))
+        except Exception as e:
+            out[name] = 'scan %s (L = %d) raises %s: %s' % (name, L, type(e).__name__, str(e)[:160])
+        finally:
+            if name == 'A':
+                bar.abort()          # B's remaining passes run free
+
+    ths = [threading.Thread(target=work, args=('A', LA, 0, c['iseed'], False)),
+           threading.Thread(target=work, args=('B', LB, off, c['iseed'] + 1, True))]
+    for th in ths:
+        th.start()
+    for th in ths:
+        th.join(120)
+    bad = [out.get(nm) for nm in 'AB' if out.get(nm)]
+    if any(th.is_alive() for th in ths):
+        bad.append('a scan did not return within 120 s')
+    if bad:
+        return (KEY_REENT, 'two threads%s each scan their own tensor with cumops (ops = %s), a barrier in the callbacks makes pass j of scan A '
+                'and pass j+%d of scan B overlap: %s' % (ag_text(ag), CB_TEXT[monoid], off, '; '.join(bad)))
+    return None
+
+
+def cb_cases(ctx, pp, torch, direct):
+    rng = ctx.rng
+    SH = [((1,), 0), ((2,), 0), ((3,), 0), ((4,), 0), ((5,), 0), ((7,), 0), ((8,), 0), ((9,), 0), ((13,), 0), ((17,), 0), ((33,), 0),
+          ((3, 5), 1), ((6, 2), 0), ((2, 9, 2), 1), ((3, 1, 4), 2), ((1, 6), 1), ((2, 2, 3, 2), 2)]
+    n = m = 0
+    for rep in range(ctx.scale(1, 6)):
+        for monoid, style, variant, left in itertools.product(CB_MONOIDS, CB_STYLES, ['cumops', 'cumops_'], [False, True]):
+            ags = AG_IN if variant == 'cumops_' else AG_OUT
+            m += 1
+            for ag in ([ags[(m + m // 4) % len(ags)], 'off'] if rep == 0 else [rng.choice(ags)]):
+                n += 1
+                sh, k = SH[(n * 7 + rep) % len(SH)] if rep == 0 else rng.choice(SH)
+                c = dict(kind='callback', monoid=monoid, style=style, variant=variant, order='left' if left else 'right', shape=list(sh),
+                         dim=k if (n + rep) % 2 else k - len(sh) - 1, L=sh[k], ag=ag, layout='CSPT'[(n // 3) % 4] if n % 3 == 0 else 'C',
+                         iseed=rng.randrange(1 << 30), inner_L=[2, 3, sh[k], 2 * sh[k] + 3, 7, 40, 1030][n % 7])
+                f = cb_exec(pp, torch, c)
+                if f:
+                    direct.append((f, c))
+                ctx.case(('callback', monoid, style, variant, left, sh, c['dim'], ag, c['iseed']), nontrivial=sh[k] >= 2, branch='callback-' + style)
+                ctx.count('callback-autograd-' + ag)
+    # two scans alternating pass by pass
+    for m, (LA, LB, off) in enumerate([(5, 7, 0), (5, 9, 1), (8, 16, 1), (3, 5, 1), (9, 17, 1), (6, 6, 0), (4, 8, 1), (17, 40, 1)]):
+        for ag in (['off', AG_OUT[1 + m % 4]] if not ctx.thorough else AG_OUT):
+            c = dict(kind='callback-threads', LA=LA, LB=LB, L=LA, offset=off, monoid=['affine', 'mat', 'band'][m % 3], ag=ag, iseed=rng.randrange(1 << 30))
+            f = cb_threads_exec(pp, torch, c)
+            if f:
+                direct.append((f, c))
+            ctx.case(('callback-threads', LA, LB, off, ag, c['iseed']), nontrivial=True, branch='callback-two-scans-alternating')
+
+
 def replay_key(ctx, c):
     f = execute(c)
     return f[0] if f else None
@@ -925,6 +1308,10 @@ def execute(c):
         return plain_exec(pp, torch, c)['fail']
     if c['kind'] == 'plainmat':
         return mat_exec(pp, torch, c)
+    if c['kind'] == 'callback':
+        return cb_exec(pp, torch, c)
+    if c['kind'] == 'callback-threads':
+        return cb_threads_exec(pp, torch, c)
     return lie_exec(pp, torch, c)['fail']
 
 
